@@ -118,7 +118,8 @@ def two_sum(
     Accuracy:
       The pair (s, t) represents the floating-point sum `x + y` exactly.
     """
-    return fpa.add_2sum(ctx, x, y, fast=assume_fma, fix_overflow=fix_overflow)
+    # (an fma does not remove Fast2Sum's |x| >= |y| precondition: always the branch-free 2Sum)
+    return fpa.add_2sum(ctx, x, y, fast=False, fix_overflow=fix_overflow)
 
 
 def quick_two_sum(ctx, a, b, fix_overflow=False):
